@@ -381,10 +381,10 @@ func SpecPrintable(s string) bool { return utils.SpecPrintableU(s) }
 // in a context and an operator created for this one run. The package-level processor stack
 // is reset before anything reads it (write-before-read obligation, cmd package).
 //@ contract Operator.Run
-//@   tags C08 C16 C19 C10 C18
+//@   tags C08 C16 C19 C10 C18 C11 C12
 //@   results r err
 //@   checks[C10,C18] the-text-is-parsed-as-given: called(NewReader) && argOf(NewReader, 0) == old(input)
-//@   requires[C08,C16] fresh-context: len(a.ctx.stash) == 0
+//@   requires[C08,C16,C11,C12] fresh-context: len(a.ctx.stash) == 0
 //@   requires[C08] fresh-operator: len(a.lines) == 0
 //@   modifies processorStack, processor, a.lines, a.groupReplacementStringBuilder
 //@   ensures[C16] error-means-no-regex: implies(err != nil, true)
